@@ -233,6 +233,7 @@ class UdpWorld:
         self.assoc_owner: Dict[Addr, ViewerStub] = {}
         self.corrupted = set()   # datagram payloads whose body the harness damaged in flight
         self.rx_hooks: List[Callable] = []
+        self.ready_hooks: List[Callable] = []
         self.arrival_hooks: List[Callable[[Arrival], None]] = []   # after the proxy handled it
         self.emission_hooks: List[Callable[[Emission], None]] = []
         self.net.taps.append(self._tap)
@@ -288,6 +289,8 @@ class UdpWorld:
     # ---- callbacks ----------------------------------------------------------------
     def on_viewer_ready(self, viewer: ViewerStub):
         self.assoc_owner[viewer.proxy_udp] = viewer
+        for h in self.ready_hooks:
+            h(viewer)
 
     def on_endpoint_rx(self, endpoint, rec):
         for h in self.rx_hooks:
